@@ -2,9 +2,11 @@ from props import KERNEL_TB, HARNESS_TB, DEC_TB
 
 PROP = dict(
     title="Bidders' funds are safe: standing bid held, losers refunded, own deposit only",
-    lean_modules=["Comdex.Props.C11"],
+    lean_modules=["Comdex.Props.C11", "Comdex.Props.C11Effects"],
+    gen=["effects"],
     namespaces=["Comdex.C11"],
-    required_theorems=["Comdex.C11.custody_holds_standing_bid", "Comdex.C11.bid_improves_by_factor",
+    required_theorems=["Comdex.C11.c11_pins", "Comdex.C11.c11_table",  # golden effect skeleton (Props/C11Effects.lean)
+                       "Comdex.C11.custody_holds_standing_bid", "Comdex.C11.bid_improves_by_factor",
                        "Comdex.C11.bid_factor_is_at_least_the_factor", "Comdex.C11.bid_never_worsens",
                        "Comdex.C11.debt_lots_stay_nonneg", "Comdex.C11.debt_bid_improves_counterexample",
                        "Comdex.C11.outbid_refunded_in_full", "Comdex.C11.emergency_close_refunds_bidder",
@@ -17,6 +19,9 @@ PROP = dict(
                        "Comdex.C11.market_total_covered", "Comdex.C11.limit_withdraw_le_own_deposit_counterexample"],
     harness_tests=["TestC11"],
     trusted_base=[KERNEL_TB, HARNESS_TB, DEC_TB,
+                  "extract/effects (go/ast, no type checking): ordered bank calls of the English-auction and limit-bid entry points of x/auctionsV2 and the surplus / debt auction entry points of x/auction (10 functions) with path conditions, texts normalised; PINNED in "
+                  "Props/C11Effects.lean against a reviewed literal (abstract party / denomination texts, positivity class, condition hashes) — "
+                  "golden skeleton, not derived from the model (its bank calls are not data); amounts not compared",
                   "Model/English.lean is hand-written from x/auction/keeper/surplus.go:147-349, debt.go:144-349, "
                   "x/auctionsV2/keeper/bid.go:321-403, auctions.go:222-233,337-485 and Model/LimitBid.lean from "
                   "x/auctionsV2/keeper/bid.go:496-675, types/tx.go:20-152, types/keys.go:78-80; both are tied by running the real "
